@@ -131,7 +131,10 @@ func cmdVerify(args []string) {
 				}
 			}
 			if *verbose || o.Status != "discharged" {
-				fmt.Printf("   %s%-70s %-10s %-8s %5dms %6dB  [o%05d]\n", mark, o.Name, o.Status, o.Solver, o.TimeMS, o.SMTSize, i)
+				fmt.Printf("   %s%-70s %-10s %-8s %5dms %6dB  [o%05d] %s\n", mark, o.Name, o.Status, o.Solver, o.TimeMS, o.SMTSize, i, o.Pos)
+				if o.Note != "" {
+					fmt.Println("      note:", o.Note)
+				}
 				if o.Status == "failed" && o.Model != "" {
 					m := o.Model; if len(m) > 700 { m = m[:700] + "..." }; fmt.Println("      model:", strings.ReplaceAll(m, "\n", "\n      "))
 				}
